@@ -13,7 +13,7 @@
      to rational points (Proofs/KdeQR.v). *)
 From Coq Require Import Reals.
 From Coquelicot Require Import Coquelicot.
-From MM Require Import Base.Num Model.Sample Model.Quantile Model.Kde Spec.Kde Proofs.Kde Proofs.KdeBw.
+From MM Require Import Base.Num Model.Sample Model.Quantile Model.Kde Spec.Kde Proofs.Kde Proofs.KdeBw Proofs.KdeGroups.
 From MM Require RealSpec.KdeR Proofs.KdeR RealSpec.Normal Proofs.KdeQR Proofs.KdeCap.
 From Coq Require Import Qreals Psatz.
 Local Open Scope Q_scope.
@@ -21,36 +21,20 @@ Local Open Scope Q_scope.
 (* ====================================================================== *)
 (* A1. the Epanechnikov kernel                                              *)
 (* ====================================================================== *)
-Theorem C12_epan_pdf_nonneg : forall h x, 0 < h -> 0 <= epan_pdf h x.
-Proof. exact epan_pdf_nonneg. Qed.
-Print Assumptions C12_epan_pdf_nonneg.
-
-(* the density vanishes exactly outside the open interval (-h, h) *)
-Theorem C12_epan_pdf_support : forall h x : Q, 0 < h -> (epan_pdf h x == 0 <-> x <= - h \/ h <= x).
-Proof. exact epan_pdf_zero_iff. Qed.
-Print Assumptions C12_epan_pdf_support.
-
-Theorem C12_epan_cdf_monotone : forall h a b : Q, 0 < h -> a <= b -> epan_cdf h a <= epan_cdf h b.
-Proof. exact epan_cdf_mono. Qed.
-Print Assumptions C12_epan_cdf_monotone.
-
-(* 0 left of the support, 1 right of it *)
-Theorem C12_epan_cdf_ends : forall h x : Q, 0 < h ->
-  (x <= - h -> epan_cdf h x == 0) /\ (h <= x -> epan_cdf h x == 1).
-Proof. exact epan_cdf_ends. Qed.
-Print Assumptions C12_epan_cdf_ends.
-
-(* the exact polynomial pieces on the support (K' = k there: see C12_R_epan_cdf_derive) *)
-Theorem C12_epan_pieces : forall h x : Q, 0 < h -> - h < x -> x < h ->
-  epan_pdf h x == (3 # 4) / h * (1 - x * x / (h * h)) /\
-  epan_cdf h x == (1 # 4) * (2 + 3 * (x / h) - (x / h) * (x / h) * (x / h)).
-Proof. exact epan_pieces. Qed.
-Print Assumptions C12_epan_pieces.
-
-(* total mass of the kernel *)
-Theorem C12_epan_mass_one : forall h : Q, 0 < h -> epan_cdf h h - epan_cdf h (- h) == 1.
-Proof. exact epan_mass_one. Qed.
-Print Assumptions C12_epan_mass_one.
+(* pdf >= 0, vanishing exactly outside the open interval (-h, h); cdf non-decreasing, 0 left of
+   the support and 1 right of it; the exact polynomial pieces on the support (K' = k there, and
+   everywhere: C12_R_epanechnikov_kernel); total mass 1 *)
+Theorem C12_epan_kernel : forall h : Q, 0 < h ->
+  (forall x, 0 <= epan_pdf h x) /\
+  (forall x, epan_pdf h x == 0 <-> x <= - h \/ h <= x) /\
+  (forall a b, a <= b -> epan_cdf h a <= epan_cdf h b) /\
+  (forall x, (x <= - h -> epan_cdf h x == 0) /\ (h <= x -> epan_cdf h x == 1)) /\
+  (forall x, - h < x -> x < h ->
+     epan_pdf h x == (3 # 4) / h * (1 - x * x / (h * h)) /\
+     epan_cdf h x == (1 # 4) * (2 + 3 * (x / h) - (x / h) * (x / h) * (x / h))) /\
+  epan_cdf h h - epan_cdf h (- h) == 1.
+Proof. exact Proofs.KdeGroups.G_epan_kernel. Qed.
+Print Assumptions C12_epan_kernel.
 
 (* ====================================================================== *)
 (* A2. without boundaries: the weighted average of the kernel               *)
@@ -73,46 +57,30 @@ Print Assumptions C12_unbounded_is_average.
 (* ====================================================================== *)
 (* A3. the laws of a distribution, every boundary setting                   *)
 (* ====================================================================== *)
-Theorem C12_pdf_nonneg : forall k : kde, kde_ok k -> k_kernel k = KEpan -> bounds_ok k ->
-  forall x p : Q, kde_pdf k x = Some (XFin p) -> 0 <= p.
-Proof. exact kde_pdf_nonneg. Qed.
-Print Assumptions C12_pdf_nonneg.
-
-Theorem C12_cdf_monotone : forall k : kde, kde_ok k -> k_kernel k = KEpan -> bounds_ok k ->
-  forall a b ca cb : Q, a <= b ->
-  kde_cdf k a = Some (XFin ca) -> kde_cdf k b = Some (XFin cb) -> ca <= cb.
-Proof. exact kde_cdf_monotone. Qed.
-Print Assumptions C12_cdf_monotone.
-
-Theorem C12_cdf_range : forall k : kde, kde_ok k -> k_kernel k = KEpan -> bounds_ok k ->
-  forall x c : Q, kde_cdf k x = Some (XFin c) -> 0 <= c /\ c <= 1.
-Proof. exact kde_cdf_range. Qed.
-Print Assumptions C12_cdf_range.
-
-(* the density vanishes outside [BoundaryMin, BoundaryMax) *)
-Theorem C12_pdf_outside : forall k : kde, kde_ok k -> k_kernel k = KEpan -> bounds_ok k ->
+(* PDF >= 0, and = 0 outside [BoundaryMin, BoundaryMax) *)
+Theorem C12_pdf_laws : forall k : kde, kde_ok k -> k_kernel k = KEpan -> bounds_ok k ->
   forall x p : Q, kde_pdf k x = Some (XFin p) ->
-  below_min (k_b k) x = true \/ from_max (k_b k) x = true -> p == 0.
-Proof. exact kde_pdf_outside. Qed.
-Print Assumptions C12_pdf_outside.
+    0 <= p /\ (below_min (k_b k) x = true \/ from_max (k_b k) x = true -> p == 0).
+Proof. exact Proofs.KdeGroups.G_pdf_laws. Qed.
+Print Assumptions C12_pdf_laws.
 
-(* CDF is 0 below and AT BoundaryMin and 1 from BoundaryMax on *)
-Theorem C12_cdf_ends : forall k : kde, kde_ok k -> k_kernel k = KEpan -> bounds_ok k ->
-  forall x c : Q, kde_cdf k x = Some (XFin c) ->
-  (below_min (k_b k) x = true -> c == 0) /\
-  (from_max (k_b k) x = true -> below_min (k_b k) x = false -> c == 1) /\
-  (match k_b k with BLower m | BBoth m _ => x == m | _ => False end -> c == 0).
-Proof. exact kde_cdf_ends. Qed.
-Print Assumptions C12_cdf_ends.
-
-(* on a side without boundary: exactly 0 left of min(data) - h, exactly 1 right of max(data) + h *)
-Theorem C12_cdf_limits : forall k : kde, kde_ok k -> k_kernel k = KEpan -> bounds_ok k ->
-  forall lo hi : Q, pairs_within lo hi (kde_ps k) ->
-  match k_b k with BNone => True | BLower m => m <= lo | BUpper M => hi <= M | _ => False end ->
-  (forall x c : Q, x <= lo - k_h k -> kde_cdf k x = Some (XFin c) -> c == 0) /\
-  (forall x c : Q, hi + k_h k <= x -> kde_cdf k x = Some (XFin c) -> c == 1).
-Proof. exact kde_cdf_limits. Qed.
-Print Assumptions C12_cdf_limits.
+(* CDF is non-decreasing on the whole line, has values in [0,1], is 0 below and AT BoundaryMin
+   and 1 from BoundaryMax on; on a side without boundary it is exactly 0 left of min(data) - h
+   and exactly 1 right of max(data) + h *)
+Theorem C12_cdf_laws : forall k : kde, kde_ok k -> k_kernel k = KEpan -> bounds_ok k ->
+  (forall a b ca cb : Q, a <= b ->
+     kde_cdf k a = Some (XFin ca) -> kde_cdf k b = Some (XFin cb) -> ca <= cb) /\
+  (forall x c : Q, kde_cdf k x = Some (XFin c) ->
+     (0 <= c /\ c <= 1) /\
+     (below_min (k_b k) x = true -> c == 0) /\
+     (from_max (k_b k) x = true -> below_min (k_b k) x = false -> c == 1) /\
+     (match k_b k with BLower m | BBoth m _ => x == m | _ => False end -> c == 0)) /\
+  (forall lo hi : Q, pairs_within lo hi (kde_ps k) ->
+     match k_b k with BNone => True | BLower m => m <= lo | BUpper M => hi <= M | _ => False end ->
+     (forall x c : Q, x <= lo - k_h k -> kde_cdf k x = Some (XFin c) -> c == 0) /\
+     (forall x c : Q, hi + k_h k <= x -> kde_cdf k x = Some (XFin c) -> c == 1)).
+Proof. exact Proofs.KdeGroups.G_cdf_laws. Qed.
+Print Assumptions C12_cdf_laws.
 
 (* one formula for all settings *)
 Theorem C12_model_is_spec : forall k : kde, kde_ok k -> k_kernel k = KEpan -> bounds_ok k ->
@@ -125,67 +93,56 @@ Print Assumptions C12_model_is_spec.
 (* ====================================================================== *)
 (* A4. one boundary: the density folded back at the boundary                *)
 (* ====================================================================== *)
+(* support [m, +inf): pdf = f(x) + f(2m - x), cdf = F(x) - F(2m - x), cdf(m) = 0 *)
 Theorem C12_lower_reflects : forall k : kde, kde_ok k -> k_kernel k = KEpan ->
-  forall m x : Q, k_b k = BLower m ->
-  (x < m -> kde_pdf k x = Some (XFin 0) /\ kde_cdf k x = Some (XFin 0)) /\
-  (m <= x -> exists p c : Q, kde_pdf k x = Some (XFin p) /\ kde_cdf k x = Some (XFin c) /\
-     p == kde_f k x + kde_f k (2 * m - x) /\ c == kde_F k x - kde_F k (2 * m - x)).
-Proof. exact kde_lower_reflects. Qed.
+  forall m : Q, k_b k = BLower m ->
+  (forall x : Q,
+    (x < m -> kde_pdf k x = Some (XFin 0) /\ kde_cdf k x = Some (XFin 0)) /\
+    (m <= x -> exists p c : Q, kde_pdf k x = Some (XFin p) /\ kde_cdf k x = Some (XFin c) /\
+       p == kde_f k x + kde_f k (2 * m - x) /\ c == kde_F k x - kde_F k (2 * m - x))) /\
+  (exists c : Q, kde_cdf k m = Some (XFin c) /\ c == 0).
+Proof. exact Proofs.KdeGroups.G_lower. Qed.
 Print Assumptions C12_lower_reflects.
 
-Theorem C12_lower_cdf_at_min : forall k : kde, kde_ok k -> k_kernel k = KEpan ->
-  forall m : Q, k_b k = BLower m -> exists c : Q, kde_cdf k m = Some (XFin c) /\ c == 0.
-Proof. exact kde_lower_cdf_at_min. Qed.
-Print Assumptions C12_lower_cdf_at_min.
-
+(* support (-inf, M): pdf = f(x) + f(2M - x), cdf = F(x) + 1 - F(2M - x); the value 1 from M on
+   continues the inside formula *)
 Theorem C12_upper_reflects : forall k : kde, kde_ok k -> k_kernel k = KEpan ->
-  forall M x : Q, k_b k = BUpper M ->
-  (M <= x -> kde_pdf k x = Some (XFin 0) /\ kde_cdf k x = Some (XFin 1)) /\
-  (x < M -> exists p c : Q, kde_pdf k x = Some (XFin p) /\ kde_cdf k x = Some (XFin c) /\
-     p == kde_f k x + kde_f k (2 * M - x) /\ c == kde_F k x + (1 - kde_F k (2 * M - x))).
-Proof. exact kde_upper_reflects. Qed.
+  forall M : Q, k_b k = BUpper M ->
+  (forall x : Q,
+    (M <= x -> kde_pdf k x = Some (XFin 0) /\ kde_cdf k x = Some (XFin 1)) /\
+    (x < M -> exists p c : Q, kde_pdf k x = Some (XFin p) /\ kde_cdf k x = Some (XFin c) /\
+       p == kde_f k x + kde_f k (2 * M - x) /\ c == kde_F k x + (1 - kde_F k (2 * M - x)))) /\
+  kde_F k M + (1 - kde_F k (2 * M - M)) == 1.
+Proof. exact Proofs.KdeGroups.G_upper. Qed.
 Print Assumptions C12_upper_reflects.
-
-(* the value 1 from BoundaryMax on continues the inside formula *)
-Theorem C12_upper_cdf_at_max : forall (k : kde) (M : Q), kde_F k M + (1 - kde_F k (2 * M - M)) == 1.
-Proof. exact kde_upper_cdf_at_max. Qed.
-Print Assumptions C12_upper_cdf_at_max.
 
 (* ====================================================================== *)
 (* A5. two boundaries: the image sums                                       *)
 (* ====================================================================== *)
-(* `series` (alg.go) in exact arithmetic: if a zero term is followed only by zero terms and one
-   occurs before the fuel runs out, the result is the sum of all terms up to any later index *)
-Theorem C12_series_stops_exactly : forall (t : nat -> Q) (fuel K : nat),
-  absorbing t -> t K == 0 -> (K < fuel)%nat ->
-  exists s : Q, series_q t 0 fuel 0 = Some s /\ forall K' : nat, (K <= K')%nat -> s == nat_sum t K'.
-Proof. exact series_q_value. Qed.
-Print Assumptions C12_series_stops_exactly.
-
-(* the fuel argument: the model's image count reaches an index beyond which every image of a
-   kernel of radius r is out of reach *)
-Theorem C12_fuel_suffices : forall r m M : Q, 0 <= r -> m < M ->
-  let K0 := (img_fuel r m M - 3)%nat in
-  (K0 < img_fuel r m M)%nat /\ r + img_d m M <= Qofnat K0 * img_d m M.
-Proof. exact img_fuel_enough. Qed.
-Print Assumptions C12_fuel_suffices.
-
-(* for any density y with the support structure of a compact-kernel average, the two truncated
-   series of KDE.PDF add up to the symmetric image sum of every order N >= K0 *)
-Theorem C12_two_series_is_fold : forall (ps : list (Q * Q)) (h m M x : Q),
-  0 < h -> pairs_within m M ps -> m <= x /\ x <= M ->
-  forall y : Q -> Q, (forall z : Q, 0 <= y z) -> (forall s t : Q, s == t -> y s == y t) ->
-  (forall z : Q, y z == 0 <-> (forall p : Q * Q, In p ps -> z - fst p <= - h \/ h <= z - fst p)) ->
-  forall K0 : nat, h + img_d m M <= Qofnat K0 * img_d m M ->
-  forall fuel : nat, (K0 < fuel)%nat ->
-  exists v : Q, two_series fuel (pdf_upper y m M x) (pdf_lower y m M x) = Some v /\
-                forall N : nat, (K0 <= N)%nat -> v == fold_pdf y m M N x.
-Proof. exact two_series_pdf_is_fold. Qed.
-Print Assumptions C12_two_series_is_fold.
+(* (1) `series` (alg.go) in exact arithmetic: if a zero term is followed only by zero terms and
+   one occurs before the fuel runs out, the result is the sum of all terms up to any later index;
+   (2) the model's image count reaches an index beyond which every image of a kernel of radius
+   r is out of reach; (3) for any density y with the support structure of a compact-kernel
+   average the two truncated series add up to the symmetric image sum of every order N >= K0 *)
+Theorem C12_fuel_argument :
+  (forall (t : nat -> Q) (fuel K : nat), absorbing t -> t K == 0 -> (K < fuel)%nat ->
+     exists s : Q, series_q t 0 fuel 0 = Some s /\ forall K' : nat, (K <= K')%nat -> s == nat_sum t K') /\
+  (forall r m M : Q, 0 <= r -> m < M ->
+     let K0 := (img_fuel r m M - 3)%nat in
+     (K0 < img_fuel r m M)%nat /\ r + img_d m M <= Qofnat K0 * img_d m M) /\
+  (forall (ps : list (Q * Q)) (h m M x : Q), 0 < h -> pairs_within m M ps -> m <= x /\ x <= M ->
+     forall y : Q -> Q, (forall z : Q, 0 <= y z) -> (forall s t : Q, s == t -> y s == y t) ->
+     (forall z : Q, y z == 0 <-> (forall p : Q * Q, In p ps -> z - fst p <= - h \/ h <= z - fst p)) ->
+     forall K0 : nat, h + img_d m M <= Qofnat K0 * img_d m M ->
+     forall fuel : nat, (K0 < fuel)%nat ->
+     exists v : Q, two_series fuel (pdf_upper y m M x) (pdf_lower y m M x) = Some v /\
+                   forall N : nat, (K0 <= N)%nat -> v == fold_pdf y m M N x).
+Proof. exact Proofs.KdeGroups.G_fuel_argument. Qed.
+Print Assumptions C12_fuel_argument.
 
 (* KDE.PDF / KDE.CDF on [BoundaryMin, BoundaryMax): the unbounded estimate folded back at both
-   boundaries,  pdf = Σ_n f(x + n d) + f(2 min - x + n d)  (the statement the pinned tree
-   violated, D5),  cdf = Σ_n F(x + n d) - F(2 min - x + n d),  for EVERY order N >= k_fuel *)
+   boundaries,  pdf = sum_n f(x + n d) + f(2 min - x + n d)  (the statement the pinned tree
+   violated, D5),  cdf = sum_n F(x + n d) - F(2 min - x + n d),  for EVERY order N >= k_fuel *)
 Theorem C12_both_is_fold : forall k : kde, kde_ok k -> k_kernel k = KEpan ->
   forall m M x : Q, k_b k = BBoth m M -> pairs_within m M (kde_ps k) ->
   (x < m -> kde_pdf k x = Some (XFin 0) /\ kde_cdf k x = Some (XFin 0)) /\
@@ -197,20 +154,18 @@ Theorem C12_both_is_fold : forall k : kde, kde_ok k -> k_kernel k = KEpan ->
 Proof. exact kde_both_is_fold. Qed.
 Print Assumptions C12_both_is_fold.
 
-(* the folded distribution function telescopes at BoundaryMax, for any F *)
-Theorem C12_fold_cdf_telescopes : forall (F : Q -> Q) (m M : Q) (N : nat),
-  (forall s t : Q, s == t -> F s == F t) ->
-  fold_cdf F m M N M == F (M + Qofnat N * period m M) - F (M - (Qofnat N + 1) * period m M).
-Proof. exact fold_cdf_at_max_telescopes. Qed.
-Print Assumptions C12_fold_cdf_telescopes.
-
-(* hence 0 at BoundaryMin and 1 at BoundaryMax: total mass 1 on the support *)
-Theorem C12_both_cdf_ends : forall k : kde, kde_ok k -> k_kernel k = KEpan ->
-  forall (m M : Q) (N : nat), k_b k = BBoth m M -> pairs_within m M (kde_ps k) -> m < M ->
-  (k_fuel k <= N)%nat ->
-  fold_cdf (kde_F k) m M N m == 0 /\ fold_cdf (kde_F k) m M N M == 1.
-Proof. exact kde_both_cdf_ends. Qed.
-Print Assumptions C12_both_cdf_ends.
+(* the folded distribution function is 0 at BoundaryMin and telescopes at BoundaryMax, for any
+   F; for the estimate it is 1 there: total mass 1 on the support *)
+Theorem C12_fold_cdf_ends :
+  (forall (F : Q -> Q) (m M : Q) (N : nat), (forall s t : Q, s == t -> F s == F t) ->
+     fold_cdf F m M N m == 0 /\
+     fold_cdf F m M N M == F (M + Qofnat N * period m M) - F (M - (Qofnat N + 1) * period m M)) /\
+  (forall k : kde, kde_ok k -> k_kernel k = KEpan ->
+     forall (m M : Q) (N : nat), k_b k = BBoth m M -> pairs_within m M (kde_ps k) -> m < M ->
+     (k_fuel k <= N)%nat ->
+     fold_cdf (kde_F k) m M N m == 0 /\ fold_cdf (kde_F k) m M N M == 1).
+Proof. exact Proofs.KdeGroups.G_fold_cdf_ends. Qed.
+Print Assumptions C12_fold_cdf_ends.
 
 (* the pinned tree's second series (+w instead of -w) is not the fold *)
 Theorem C12_both_D5_refuted :
@@ -225,49 +180,35 @@ Print Assumptions C12_both_D5_refuted.
 (* ====================================================================== *)
 (* A6. the delta kernel                                                     *)
 (* ====================================================================== *)
-Theorem C12_delta_cdf_is_weighted_ecdf : forall k : kde, kde_ok_delta k -> k_kernel k = KDelta ->
-  forall x : Q, k_b k = BNone -> exists c : Q, kde_cdf k x = Some (XFin c) /\ c == wecdf (kde_ps k) x.
-Proof. exact delta_cdf_is_weighted_ecdf. Qed.
-Print Assumptions C12_delta_cdf_is_weighted_ecdf.
-
-Theorem C12_delta_cdf_lower : forall k : kde, kde_ok_delta k -> k_kernel k = KDelta ->
-  forall m lo hi x : Q, k_b k = BLower m -> pairs_within lo hi (kde_ps k) -> m <= lo ->
-  exists c : Q, kde_cdf k x = Some (XFin c) /\ (x <= m -> c == 0) /\ (m < x -> c == wecdf (kde_ps k) x).
-Proof. exact delta_cdf_lower. Qed.
-Print Assumptions C12_delta_cdf_lower.
-
-Theorem C12_delta_cdf_upper : forall k : kde, kde_ok_delta k -> k_kernel k = KDelta ->
-  forall M lo hi x : Q, k_b k = BUpper M -> pairs_within lo hi (kde_ps k) -> hi <= M ->
-  exists c : Q, kde_cdf k x = Some (XFin c) /\ (M <= x -> c == 1) /\ (x < M -> c == wecdf (kde_ps k) x).
-Proof. exact delta_cdf_upper. Qed.
-Print Assumptions C12_delta_cdf_upper.
-
-(* the "density" of the delta kernel: +Inf exactly at the data points *)
-Theorem C12_delta_pdf : forall k : kde, kde_ok_delta k -> k_kernel k = KDelta ->
-  forall x : Q, k_b k = BNone ->
-  ((exists p : Q * Q, In p (kde_ps k) /\ fst p == x) -> kde_pdf k x = Some (XInf false)) /\
-  ((forall p : Q * Q, In p (kde_ps k) -> ~ fst p == x) -> kde_pdf k x = Some (XFin 0)).
-Proof. exact delta_pdf_unbounded. Qed.
-Print Assumptions C12_delta_pdf.
+(* CDF is the weighted empirical distribution function (no boundary; inside one boundary, with
+   0 at BoundaryMin / 1 from BoundaryMax); the "density" is +Inf exactly at the data points *)
+Theorem C12_delta_kernel : forall k : kde, kde_ok_delta k -> k_kernel k = KDelta ->
+  (k_b k = BNone -> forall x : Q,
+     (exists c : Q, kde_cdf k x = Some (XFin c) /\ c == wecdf (kde_ps k) x) /\
+     ((exists p : Q * Q, In p (kde_ps k) /\ fst p == x) -> kde_pdf k x = Some (XInf false)) /\
+     ((forall p : Q * Q, In p (kde_ps k) -> ~ fst p == x) -> kde_pdf k x = Some (XFin 0))) /\
+  (forall m lo hi x : Q, k_b k = BLower m -> pairs_within lo hi (kde_ps k) -> m <= lo ->
+     exists c : Q, kde_cdf k x = Some (XFin c) /\ (x <= m -> c == 0) /\ (m < x -> c == wecdf (kde_ps k) x)) /\
+  (forall M lo hi x : Q, k_b k = BUpper M -> pairs_within lo hi (kde_ps k) -> hi <= M ->
+     exists c : Q, kde_cdf k x = Some (XFin c) /\ (M <= x -> c == 1) /\ (x < M -> c == wecdf (kde_ps k) x)).
+Proof. exact Proofs.KdeGroups.G_delta_kernel. Qed.
+Print Assumptions C12_delta_kernel.
 
 (* ====================================================================== *)
 (* A7. bandwidth rules, lazy bandwidth, Bounds                              *)
 (* ====================================================================== *)
-(* BandwidthSilverman = 1.06 s n^(-1/5), as 10th powers: 1.06^10 (s^2)^5 / n^2 *)
-Theorem C12_silverman_rule : forall s : sample, s_ws s = None -> (2 <= length (s_xs s))%nat ->
-  exists v : Q, bandwidth_silverman10 s = BwPow10 v /\
-                v == rule10 (Stream.var_def (s_xs s)) (Qofnat (length (s_xs s))).
-Proof. exact silverman_rule. Qed.
-Print Assumptions C12_silverman_rule.
-
-(* BandwidthScott = 1.06 min(s, IQR/1.349) n^(-1/5), as 10th powers *)
-Theorem C12_scott_rule : forall (s : sample) (a b : Q), s_ws s = None -> (2 <= length (s_xs s))%nat ->
-  quantile s (3 # 4) = RVal a -> quantile s (1 # 4) = RVal b ->
-  exists v : Q, bandwidth_scott10 s = BwPow10 v /\
-    let r := (a - b) / (1349 # 1000) in
-    v == rule10 (Qminb (Stream.var_def (s_xs s)) (r * r)) (Qofnat (length (s_xs s))).
-Proof. exact scott_rule. Qed.
-Print Assumptions C12_scott_rule.
+(* BandwidthSilverman = 1.06 s n^(-1/5) and BandwidthScott = 1.06 min(s, IQR/1.349) n^(-1/5), as
+   10th powers: rule10 s2 n = 1.06^10 (s^2)^5 / n^2 (C12_Q2R_bridge_and_rules: that IS the
+   10th power of the formula), with the textbook variance var_def *)
+Theorem C12_bandwidth_rules : forall s : sample, s_ws s = None -> (2 <= length (s_xs s))%nat ->
+  (exists v : Q, bandwidth_silverman10 s = BwPow10 v /\
+                 v == rule10 (Stream.var_def (s_xs s)) (Qofnat (length (s_xs s)))) /\
+  (forall a b : Q, quantile s (3 # 4) = RVal a -> quantile s (1 # 4) = RVal b ->
+     exists v : Q, bandwidth_scott10 s = BwPow10 v /\
+       let r := (a - b) / (1349 # 1000) in
+       v == rule10 (Qminb (Stream.var_def (s_xs s)) (r * r)) (Qofnat (length (s_xs s)))).
+Proof. exact Proofs.KdeGroups.G_bandwidth_rules. Qed.
+Print Assumptions C12_bandwidth_rules.
 
 (* a zero Bandwidth selects Scott's rule, once; a non-zero one is never touched *)
 Theorem C12_bandwidth_lazy : forall before scott : Q,
@@ -277,27 +218,24 @@ Theorem C12_bandwidth_lazy : forall before scott : Q,
 Proof. exact bandwidth_lazy. Qed.
 Print Assumptions C12_bandwidth_lazy.
 
-(* what the Bounds checker accepts: a finite interval inside the boundaries with >= 98% mass *)
-Theorem C12_bounds_checker_sound : forall (b : bconf) (lo hi : xreal) (mass : Q),
-  kde_bounds_ok b lo hi mass = true ->
-  exists l h : Q, lo = XFin l /\ hi = XFin h /\ l <= h /\ (98 # 100) <= mass /\
-    match b with
-    | BNone => True
-    | BLower m => m <= l
-    | BUpper M => h <= M
-    | BBoth m M => m <= l /\ h <= M
-    | BBad => False
-    end.
-Proof. exact kde_bounds_ok_sound. Qed.
-Print Assumptions C12_bounds_checker_sound.
-
-(* the delta kernel's mass of [lo, hi]: total weight of the data points in the closed interval *)
-Theorem C12_delta_mass_in : forall (xs : list Q) (ws : option (list Q)) (lo hi : Q), ws_wf xs ws ->
-  delta_mass_in xs ws lo hi ==
-  Qsum (map (fun p => if Qle_bool lo (fst p) && Qle_bool (fst p) hi then snd p else 0) (kpairs xs ws))
-  / wtotal (kpairs xs ws).
-Proof. exact delta_mass_in_spec. Qed.
-Print Assumptions C12_delta_mass_in.
+(* what the Bounds checker accepts: a finite interval inside the boundaries with >= 98% mass;
+   the delta kernel's mass of [lo, hi] is the total weight of the data points in it *)
+Theorem C12_bounds_checker :
+  (forall (b : bconf) (lo hi : xreal) (mass : Q), kde_bounds_ok b lo hi mass = true ->
+     exists l h : Q, lo = XFin l /\ hi = XFin h /\ l <= h /\ (98 # 100) <= mass /\
+       match b with
+       | BNone => True
+       | BLower m => m <= l
+       | BUpper M => h <= M
+       | BBoth m M => m <= l /\ h <= M
+       | BBad => False
+       end) /\
+  (forall (xs : list Q) (ws : option (list Q)) (lo hi : Q), ws_wf xs ws ->
+     delta_mass_in xs ws lo hi ==
+     Qsum (map (fun p => if Qle_bool lo (fst p) && Qle_bool (fst p) hi then snd p else 0) (kpairs xs ws))
+     / wtotal (kpairs xs ws)).
+Proof. exact Proofs.KdeGroups.G_bounds_checker. Qed.
+Print Assumptions C12_bounds_checker.
 
 (* ====================================================================== *)
 (* B. over the reals (RealSpec/KdeR.v); grouped, one statement per topic    *)
@@ -378,103 +316,87 @@ Theorem C12_R_gaussian : forall h : R, 0 < h ->
 Proof. exact Proofs.KdeCap.R_gaussian. Qed.
 Print Assumptions C12_R_gaussian.
 
-(* the 10th-power form of the bandwidth rules is the stated formula 1.06 s n^(-1/5); the
-   minimum of two non-negative deviations is decided by their squares *)
-Theorem C12_R_bandwidth_formula :
-  (forall (s : R) (s2 n : Q), (0 < n)%Q -> Q2R s2 = s * s ->
-     Q2R (bw10 s2 n) = (106 / 100 * s * Rpower (Q2R n) (- (1 / 5))) ^ 10) /\
-  (forall a b : R, 0 <= a -> 0 <= b -> Rmin a b * Rmin a b = Rmin (a * a) (b * b)).
-Proof. exact Proofs.KdeCap.R_bandwidth_formula. Qed.
-Print Assumptions C12_R_bandwidth_formula.
-
 (* ====================================================================== *)
 (* C. bridge: the model's values are the values of a real distribution      *)
 (* ====================================================================== *)
-(* the rational definitions (model kernels, Spec/Kde.v) are the real ones at rational points *)
-Theorem C12_Q2R_bridge :
-  (forall h x : Q, (0 < h)%Q -> Q2R (epan_pdf h x) = RealSpec.KdeR.epan_pdf (Q2R h) (Q2R x)) /\
-  (forall h x : Q, (0 < h)%Q -> Q2R (epan_cdf h x) = RealSpec.KdeR.epan_cdf (Q2R h) (Q2R x)) /\
-  (forall (g : Q -> Q) (gR : R -> R) (ps : list (Q * Q)) (x : Q),
-     (forall q : Q, Q2R (g q) = gR (Q2R q)) -> pairs_ok ps ->
-     Q2R (wavg g ps x) = RealSpec.KdeR.kde_mix gR (Proofs.KdeQR.sampleR ps) (Q2R x)) /\
-  (forall (f : Q -> Q) (fR : R -> R) (m M : Q) (N : nat) (x : Q),
-     (forall q : Q, Q2R (f q) = fR (Q2R q)) ->
-     Q2R (fold_pdf f m M N x) = RealSpec.KdeR.img_pdf fR (Q2R m) (Q2R M) N (Q2R x)) /\
-  (forall (F : Q -> Q) (FR : R -> R) (m M : Q) (N : nat) (x : Q),
-     (forall q : Q, Q2R (F q) = FR (Q2R q)) ->
-     Q2R (fold_cdf F m M N x) = RealSpec.KdeR.img_cdf FR (Q2R m) (Q2R M) N (Q2R x)).
-Proof. exact Proofs.KdeCap.Q2R_bridge. Qed.
-Print Assumptions C12_Q2R_bridge.
+(* the rational definitions (model kernels, Spec/Kde.v) are the real ones at rational points;
+   the 10th-power form of the bandwidth rules is the stated formula 1.06 s n^(-1/5), and the
+   minimum of two non-negative deviations is decided by their squares *)
+Theorem C12_Q2R_bridge_and_rules :
+  ((forall h x : Q, (0 < h)%Q -> Q2R (epan_pdf h x) = RealSpec.KdeR.epan_pdf (Q2R h) (Q2R x)) /\
+   (forall h x : Q, (0 < h)%Q -> Q2R (epan_cdf h x) = RealSpec.KdeR.epan_cdf (Q2R h) (Q2R x)) /\
+   (forall (g : Q -> Q) (gR : R -> R) (ps : list (Q * Q)) (x : Q),
+      (forall q : Q, Q2R (g q) = gR (Q2R q)) -> pairs_ok ps ->
+      Q2R (wavg g ps x) = RealSpec.KdeR.kde_mix gR (Proofs.KdeQR.sampleR ps) (Q2R x)) /\
+   (forall (f : Q -> Q) (fR : R -> R) (m M : Q) (N : nat) (x : Q),
+      (forall q : Q, Q2R (f q) = fR (Q2R q)) ->
+      Q2R (fold_pdf f m M N x) = RealSpec.KdeR.img_pdf fR (Q2R m) (Q2R M) N (Q2R x)) /\
+   (forall (F : Q -> Q) (FR : R -> R) (m M : Q) (N : nat) (x : Q),
+      (forall q : Q, Q2R (F q) = FR (Q2R q)) ->
+      Q2R (fold_cdf F m M N x) = RealSpec.KdeR.img_cdf FR (Q2R m) (Q2R M) N (Q2R x))) /\
+  ((forall (s : R) (s2 n : Q), (0 < n)%Q -> Q2R s2 = s * s ->
+      Q2R (bw10 s2 n) = (106 / 100 * s * Rpower (Q2R n) (- (1 / 5))) ^ 10) /\
+   (forall a b : R, 0 <= a -> 0 <= b -> Rmin a b * Rmin a b = Rmin (a * a) (b * b))).
+Proof. exact Proofs.KdeCap.Q2R_bridge_and_rules. Qed.
+Print Assumptions C12_Q2R_bridge_and_rules.
 
-(* CAPSTONES: in every boundary setting there is a pair (fR, FR) of real functions with
-   FR' = fR >= 0 continuous, FR non-decreasing, RInt fR a b = FR b - FR a for all a b
-   (Proofs.KdeQR.proper_pair), total mass 1 on the support, FR = 0 at BoundaryMin / = 1 at
-   BoundaryMax, whose values at every rational x are what KDE.PDF / KDE.CDF compute *)
-Theorem C12_model_proper_unbounded : forall k : kde, kde_ok k -> k_kernel k = KEpan -> k_b k = BNone ->
-  exists fR FR : R -> R,
-    Proofs.KdeQR.proper_pair fR FR /\ (forall x : R, 0 <= FR x <= 1) /\
-    (forall lo hi : Q, pairs_within lo hi (kde_ps k) ->
-       (forall x : R, x <= Q2R lo - Q2R (k_h k) -> FR x = 0) /\
-       (forall x : R, Q2R hi + Q2R (k_h k) <= x -> FR x = 1) /\
-       RInt fR (Q2R lo - Q2R (k_h k)) (Q2R hi + Q2R (k_h k)) = 1) /\
-    forall x : Q, exists p c : Q,
-      kde_pdf k x = Some (XFin p) /\ kde_cdf k x = Some (XFin c) /\
-      Q2R p = fR (Q2R x) /\ Q2R c = FR (Q2R x).
-Proof. exact Proofs.KdeCap.model_proper_unbounded. Qed.
-Print Assumptions C12_model_proper_unbounded.
-
-Theorem C12_model_proper_lower : forall k : kde, kde_ok k -> k_kernel k = KEpan ->
-  forall m : Q, k_b k = BLower m ->
-  exists fR FR : R -> R,
-    Proofs.KdeQR.proper_pair fR FR /\ FR (Q2R m) = 0 /\
-    (forall lo hi : Q, pairs_within lo hi (kde_ps k) -> (m <= lo)%Q ->
-       (forall x : R, Q2R hi + Q2R (k_h k) <= x -> FR x = 1) /\
-       RInt fR (Q2R m) (Q2R hi + Q2R (k_h k)) = 1) /\
-    forall x : Q,
-      ((x < m)%Q -> kde_pdf k x = Some (XFin 0%Q) /\ kde_cdf k x = Some (XFin 0%Q)) /\
-      ((m <= x)%Q -> exists p c : Q,
-         kde_pdf k x = Some (XFin p) /\ kde_cdf k x = Some (XFin c) /\
-         Q2R p = fR (Q2R x) /\ Q2R c = FR (Q2R x)).
-Proof. exact Proofs.KdeCap.model_proper_lower. Qed.
-Print Assumptions C12_model_proper_lower.
-
-Theorem C12_model_proper_upper : forall k : kde, kde_ok k -> k_kernel k = KEpan ->
-  forall M : Q, k_b k = BUpper M ->
-  exists fR FR : R -> R,
-    Proofs.KdeQR.proper_pair fR FR /\ FR (Q2R M) = 1 /\
-    (forall lo hi : Q, pairs_within lo hi (kde_ps k) -> (hi <= M)%Q ->
-       (forall x : R, x <= Q2R lo - Q2R (k_h k) -> FR x = 0) /\
-       RInt fR (Q2R lo - Q2R (k_h k)) (Q2R M) = 1) /\
-    forall x : Q,
-      ((M <= x)%Q -> kde_pdf k x = Some (XFin 0%Q) /\ kde_cdf k x = Some (XFin 1%Q)) /\
-      ((x < M)%Q -> exists p c : Q,
-         kde_pdf k x = Some (XFin p) /\ kde_cdf k x = Some (XFin c) /\
-         Q2R p = fR (Q2R x) /\ Q2R c = FR (Q2R x)).
-Proof. exact Proofs.KdeCap.model_proper_upper. Qed.
-Print Assumptions C12_model_proper_upper.
-
-Theorem C12_model_proper_both : forall k : kde, kde_ok k -> k_kernel k = KEpan ->
-  forall m M : Q, k_b k = BBoth m M -> pairs_within m M (kde_ps k) -> (m < M)%Q ->
-  exists fR FR : R -> R,
-    Proofs.KdeQR.proper_pair fR FR /\ FR (Q2R m) = 0 /\ FR (Q2R M) = 1 /\
-    (forall x : R, Q2R m <= x <= Q2R M -> 0 <= FR x <= 1) /\
-    RInt fR (Q2R m) (Q2R M) = 1 /\
-    forall x : Q,
-      ((x < m)%Q -> kde_pdf k x = Some (XFin 0%Q) /\ kde_cdf k x = Some (XFin 0%Q)) /\
-      ((M <= x)%Q -> kde_pdf k x = Some (XFin 0%Q) /\ kde_cdf k x = Some (XFin 1%Q)) /\
-      ((m <= x)%Q -> (x < M)%Q -> exists p c : Q,
-         kde_pdf k x = Some (XFin p) /\ kde_cdf k x = Some (XFin c) /\
-         Q2R p = fR (Q2R x) /\ Q2R c = FR (Q2R x)).
-Proof. exact Proofs.KdeCap.model_proper_both. Qed.
-Print Assumptions C12_model_proper_both.
+(* CAPSTONE: in every boundary setting (none / lower / upper / both) there is a pair (fR, FR)
+   of real functions with FR' = fR >= 0 continuous, FR non-decreasing, RInt fR a b = FR b - FR a
+   for all a b (Proofs.KdeQR.proper_pair), total mass 1 on the support, FR = 0 at BoundaryMin /
+   = 1 at BoundaryMax, whose values at every rational x are what KDE.PDF / KDE.CDF compute *)
+Theorem C12_model_is_a_distribution : forall k : kde, kde_ok k -> k_kernel k = KEpan ->
+  (k_b k = BNone ->
+   exists fR FR : R -> R,
+     Proofs.KdeQR.proper_pair fR FR /\ (forall x : R, 0 <= FR x <= 1) /\
+     (forall lo hi : Q, pairs_within lo hi (kde_ps k) ->
+        (forall x : R, x <= Q2R lo - Q2R (k_h k) -> FR x = 0) /\
+        (forall x : R, Q2R hi + Q2R (k_h k) <= x -> FR x = 1) /\
+        RInt fR (Q2R lo - Q2R (k_h k)) (Q2R hi + Q2R (k_h k)) = 1) /\
+     forall x : Q, exists p c : Q,
+       kde_pdf k x = Some (XFin p) /\ kde_cdf k x = Some (XFin c) /\
+       Q2R p = fR (Q2R x) /\ Q2R c = FR (Q2R x)) /\
+  (forall m : Q, k_b k = BLower m ->
+   exists fR FR : R -> R,
+     Proofs.KdeQR.proper_pair fR FR /\ FR (Q2R m) = 0 /\
+     (forall lo hi : Q, pairs_within lo hi (kde_ps k) -> (m <= lo)%Q ->
+        (forall x : R, Q2R hi + Q2R (k_h k) <= x -> FR x = 1) /\
+        RInt fR (Q2R m) (Q2R hi + Q2R (k_h k)) = 1) /\
+     forall x : Q,
+       ((x < m)%Q -> kde_pdf k x = Some (XFin 0%Q) /\ kde_cdf k x = Some (XFin 0%Q)) /\
+       ((m <= x)%Q -> exists p c : Q,
+          kde_pdf k x = Some (XFin p) /\ kde_cdf k x = Some (XFin c) /\
+          Q2R p = fR (Q2R x) /\ Q2R c = FR (Q2R x))) /\
+  (forall M : Q, k_b k = BUpper M ->
+   exists fR FR : R -> R,
+     Proofs.KdeQR.proper_pair fR FR /\ FR (Q2R M) = 1 /\
+     (forall lo hi : Q, pairs_within lo hi (kde_ps k) -> (hi <= M)%Q ->
+        (forall x : R, x <= Q2R lo - Q2R (k_h k) -> FR x = 0) /\
+        RInt fR (Q2R lo - Q2R (k_h k)) (Q2R M) = 1) /\
+     forall x : Q,
+       ((M <= x)%Q -> kde_pdf k x = Some (XFin 0%Q) /\ kde_cdf k x = Some (XFin 1%Q)) /\
+       ((x < M)%Q -> exists p c : Q,
+          kde_pdf k x = Some (XFin p) /\ kde_cdf k x = Some (XFin c) /\
+          Q2R p = fR (Q2R x) /\ Q2R c = FR (Q2R x))) /\
+  (forall m M : Q, k_b k = BBoth m M -> pairs_within m M (kde_ps k) -> (m < M)%Q ->
+   exists fR FR : R -> R,
+     Proofs.KdeQR.proper_pair fR FR /\ FR (Q2R m) = 0 /\ FR (Q2R M) = 1 /\
+     (forall x : R, Q2R m <= x <= Q2R M -> 0 <= FR x <= 1) /\
+     RInt fR (Q2R m) (Q2R M) = 1 /\
+     forall x : Q,
+       ((x < m)%Q -> kde_pdf k x = Some (XFin 0%Q) /\ kde_cdf k x = Some (XFin 0%Q)) /\
+       ((M <= x)%Q -> kde_pdf k x = Some (XFin 0%Q) /\ kde_cdf k x = Some (XFin 1%Q)) /\
+       ((m <= x)%Q -> (x < M)%Q -> exists p c : Q,
+          kde_pdf k x = Some (XFin p) /\ kde_cdf k x = Some (XFin c) /\
+          Q2R p = fR (Q2R x) /\ Q2R c = FR (Q2R x))).
+Proof. exact Proofs.KdeCap.model_is_a_distribution. Qed.
+Print Assumptions C12_model_is_a_distribution.
 
 Local Close Scope R_scope.
 
 (* ====================================================================== *)
 (* Examples: the hypotheses are satisfiable, the model computes              *)
 (* ====================================================================== *)
-(* sample {1,2,3}, weights {1,2,1}, h = 1 *)
-Definition ex_k (b : bconf) : kde := mkKde [1; 2; 3] (Some [1; 2; 1]) KEpan 1 b.
+(* ex_k b (Proofs/KdeGroups.v): sample {1,2,3}, weights {1,2,1}, h = 1, boundary setting b *)
 Example C12_ex_hyps :
   kde_ok (ex_k BNone) /\ bounds_ok (ex_k (BLower (1 # 2))) /\ bounds_ok (ex_k (BUpper 4)) /\
   bounds_ok (ex_k (BBoth (1 # 2) 4)) /\ pairs_within 1 3 (kde_ps (ex_k BNone)) /\
